@@ -78,6 +78,9 @@ func genC03(r *Rand, tier string, ord int) *Trial {
 		if many {
 			n = r.Range(60, 150)
 			t.Kind = "generated-many"
+			if r.P(0.2) {
+				n, t.Kind = r.Range(300, 600), "generated-many-hundreds"
+			}
 		}
 		ref = genRefSeq(r, w)
 		if r.P(0.3) {
@@ -91,6 +94,14 @@ func genC03(r *Rand, tier string, ord int) *Trial {
 	t.Case = Case{Cmd: "snps", Files: map[string]string{"ref": ">ref\n" + ref + "\n", "query": q.FASTA(lay)}}
 	t.Case.Opts.HardGaps = hard
 	t.Runs = genRunCfgs(r, 3)
+	if strings.HasPrefix(t.Kind, "generated-many") {
+		n := strings.Count(t.Case.Files["query"], ">")
+		scaleHorizon(t.Runs, 8*n)
+		if r.P(0.5) {
+			t.Runs[0].Strat = simrt.Strategy{Kind: simrt.StratPCT, Depth: r.Range(1, 3), Horizon: 5 * n, SelectRand: true}
+			t.Runs[0].NumCPU = r.PickInt(2, 3, 4, 8)
+		}
+	}
 	return t
 }
 
